@@ -7,6 +7,8 @@ package main
 // on it.
 
 import (
+	"encoding"
+	"encoding/json"
 	"fmt"
 	"strings"
 
@@ -31,7 +33,13 @@ type tkObs struct {
 	S string
 }
 
-func (v tkObs) render() ([]byte, error)        { return []byte(fmt.Sprintf("%d@%d", v.X, tkObsPhase)), nil }
+// tkObsMarshalCalls: how often a marshaler of tkObs was called (reset by the oracle that reads it)
+var tkObsMarshalCalls int
+
+func (v tkObs) render() ([]byte, error) {
+	tkObsMarshalCalls++
+	return []byte(fmt.Sprintf("%d@%d", v.X, tkObsPhase)), nil
+}
 func (v tkObs) MarshalText() ([]byte, error)   { return v.render() }
 func (v tkObs) MarshalBinary() ([]byte, error) { return v.render() }
 func (v tkObs) MarshalJSON() ([]byte, error)   { return v.render() }
@@ -50,10 +58,24 @@ func (v *tkObs) UnmarshalJSON(d []byte) error   { return v.store(d) }
 // tkObsCase is one case in a family-independent form; the hooks get setters for the fields of the *Case they are handed.
 type tkObsCase struct {
 	before, after func(index int, setValue func(tkObs), setData func(string)) error
-	data          string
-	value         tkObs
-	wantErr       bool
+	// beforeX / afterX (used when the plain hook is nil) get setters for every field of the *Case a hook can write,
+	// the hook fields themselves included
+	beforeX, afterX tkObsHookX
+	constraint      test.Constraint
+	data            string
+	value           tkObs
+	wantErr         bool
 }
+
+// tkObsSet: setters for the fields of the *Case a hook is handed (family-independent)
+type tkObsSet struct {
+	Value  func(tkObs)
+	Data   func(string)
+	Before func(tkObsHookX)
+	After  func(tkObsHookX)
+}
+
+type tkObsHookX func(index int, s tkObsSet) error
 
 // tkObsRun runs the cases through one helper (fam T/B/J, marshal or unmarshal) and returns the number of Errorf calls.
 func tkObsRun(fam byte, marshal bool, cs []tkObsCase) int {
@@ -78,7 +100,24 @@ func tkObsRun(fam byte, marshal bool, cs []tkObsCase) int {
 					return h(i, func(v tkObs) { c.Value = v }, func(d string) { c.Data = d })
 				}
 			}
-			l = append(l, test.CaseText[tkObs]{Before: wrap(x.before), After: wrap(x.after), Data: x.data, Value: x.value, Error: pred(x)})
+			var wrapX func(h tkObsHookX) func(int, *test.CaseText[tkObs]) error
+			wrapX = func(h tkObsHookX) func(int, *test.CaseText[tkObs]) error {
+				if h == nil {
+					return nil
+				}
+				return func(i int, c *test.CaseText[tkObs]) error {
+					return h(i, tkObsSet{Value: func(v tkObs) { c.Value = v }, Data: func(d string) { c.Data = d },
+						Before: func(h2 tkObsHookX) { c.Before = wrapX(h2) }, After: func(h2 tkObsHookX) { c.After = wrapX(h2) }})
+				}
+			}
+			bh, ah := wrap(x.before), wrap(x.after)
+			if bh == nil {
+				bh = wrapX(x.beforeX)
+			}
+			if ah == nil {
+				ah = wrapX(x.afterX)
+			}
+			l = append(l, test.CaseText[tkObs]{Constraint: x.constraint, Before: bh, After: ah, Data: x.data, Value: x.value, Error: pred(x)})
 		}
 		if marshal {
 			test.MarshalText(rec, l)
@@ -97,7 +136,24 @@ func tkObsRun(fam byte, marshal bool, cs []tkObsCase) int {
 					return h(i, func(v tkObs) { c.Value = v }, func(d string) { c.Data = []byte(d) })
 				}
 			}
-			l = append(l, test.CaseBinary[tkObs]{Before: wrap(x.before), After: wrap(x.after), Data: []byte(x.data), Value: x.value, Error: pred(x)})
+			var wrapX func(h tkObsHookX) func(int, *test.CaseBinary[tkObs]) error
+			wrapX = func(h tkObsHookX) func(int, *test.CaseBinary[tkObs]) error {
+				if h == nil {
+					return nil
+				}
+				return func(i int, c *test.CaseBinary[tkObs]) error {
+					return h(i, tkObsSet{Value: func(v tkObs) { c.Value = v }, Data: func(d string) { c.Data = []byte(d) },
+						Before: func(h2 tkObsHookX) { c.Before = wrapX(h2) }, After: func(h2 tkObsHookX) { c.After = wrapX(h2) }})
+				}
+			}
+			bh, ah := wrap(x.before), wrap(x.after)
+			if bh == nil {
+				bh = wrapX(x.beforeX)
+			}
+			if ah == nil {
+				ah = wrapX(x.afterX)
+			}
+			l = append(l, test.CaseBinary[tkObs]{Constraint: x.constraint, Before: bh, After: ah, Data: []byte(x.data), Value: x.value, Error: pred(x)})
 		}
 		if marshal {
 			test.MarshalBinary(rec, l)
@@ -116,7 +172,24 @@ func tkObsRun(fam byte, marshal bool, cs []tkObsCase) int {
 					return h(i, func(v tkObs) { c.Value = v }, func(d string) { c.Data = d })
 				}
 			}
-			l = append(l, test.CaseJSON[tkObs]{Before: wrap(x.before), After: wrap(x.after), Data: x.data, Value: x.value, Error: pred(x)})
+			var wrapX func(h tkObsHookX) func(int, *test.CaseJSON[tkObs]) error
+			wrapX = func(h tkObsHookX) func(int, *test.CaseJSON[tkObs]) error {
+				if h == nil {
+					return nil
+				}
+				return func(i int, c *test.CaseJSON[tkObs]) error {
+					return h(i, tkObsSet{Value: func(v tkObs) { c.Value = v }, Data: func(d string) { c.Data = d },
+						Before: func(h2 tkObsHookX) { c.Before = wrapX(h2) }, After: func(h2 tkObsHookX) { c.After = wrapX(h2) }})
+				}
+			}
+			bh, ah := wrap(x.before), wrap(x.after)
+			if bh == nil {
+				bh = wrapX(x.beforeX)
+			}
+			if ah == nil {
+				ah = wrapX(x.afterX)
+			}
+			l = append(l, test.CaseJSON[tkObs]{Constraint: x.constraint, Before: bh, After: ah, Data: x.data, Value: x.value, Error: pred(x)})
 		}
 		if marshal {
 			test.MarshalJSON(rec, l)
@@ -187,6 +260,109 @@ func propC20Observed(c *Ctx) {
 		}
 		expect("C20.after.value", fam, false, []tkObsCase{{before: phase(1), after: afterV("abc@1"), data: "abc"}}, false, "After supplies the expected Value (the literal is the zero value)")
 		expect("C20.after.value", fam, false, []tkObsCase{{before: phase(1), after: afterV("xyz@1"), data: "abc", value: tkObs{S: "abc@1"}}}, true, "After replaces a right literal Value by a wrong one")
+		// ---- the hooks are fields of the case too: an After hook written (or removed) by Before is the After hook of the case
+		for _, marshal := range []bool{true, false} {
+			okCase := func(bx tkObsHookX, ax tkObsHookX) tkObsCase {
+				if marshal {
+					return tkObsCase{beforeX: bx, afterX: ax, data: "5@1", value: tkObs{X: 5}}
+				}
+				return tkObsCase{beforeX: bx, afterX: ax, data: "abc", value: tkObs{S: "abc@1"}}
+			}
+			failing := func(int, tkObsSet) error { tkObsPhase = 2; return fmt.Errorf("after failed") }
+			panicking := func(int, tkObsSet) error { tkObsPhase = 2; panic("after panicked") }
+			quiet := func(int, tkObsSet) error { tkObsPhase = 2; return nil }
+			install := func(h tkObsHookX) tkObsHookX {
+				return func(_ int, s tkObsSet) error { tkObsPhase = 1; s.After(h); return nil }
+			}
+			expect("C20.hook.installed", fam, marshal, []tkObsCase{okCase(install(failing), nil)}, true, "Before installs a failing After hook (the literal has none)")
+			expect("C20.hook.installed", fam, marshal, []tkObsCase{okCase(install(panicking), nil)}, true, "Before installs a panicking After hook (the literal has none)")
+			expect("C20.hook.installed", fam, marshal, []tkObsCase{okCase(install(failing), quiet)}, true, "Before replaces a quiet After hook by a failing one")
+			expect("C20.hook.installed", fam, marshal, []tkObsCase{okCase(install(nil), failing)}, false, "Before removes the failing After hook of the literal")
+			expect("C20.hook.installed", fam, marshal, []tkObsCase{okCase(install(quiet), failing)}, false, "Before replaces the failing After hook of the literal by a quiet one")
+			expect("C20.hook.installed", fam, marshal, []tkObsCase{okCase(install(quiet), nil), okCase(nil, nil), okCase(install(failing), nil)}, true, "three cases, the last one's Before installs a failing After hook")
+			if !marshal {
+				// the installed After hook supplies the expected Value
+				supply := func(sv string) tkObsHookX {
+					return func(_ int, s tkObsSet) error { tkObsPhase = 2; s.Value(tkObs{S: sv}); return nil }
+				}
+				expect("C20.hook.installed", fam, false, []tkObsCase{{beforeX: install(supply("abc@1")), data: "abc"}}, false, "Before installs an After hook that supplies the expected Value (the literal is the zero value)")
+				expect("C20.hook.installed", fam, false, []tkObsCase{{beforeX: install(supply("xyz@1")), data: "abc", value: tkObs{S: "abc@1"}}}, true, "Before installs an After hook that replaces a right literal Value by a wrong one")
+			}
+		}
+		// ---- Unmarshal direction: Data written by Before is the Data of the case - the unmarshaler is handed it
+		{
+			setD := func(d string) tkObsHookX {
+				return func(_ int, s tkObsSet) error { tkObsPhase = 1; s.Data(d); return nil }
+			}
+			for _, payload := range []string{"right", "12", " 12", "12\n", "", "\x00", "{ \"a\" : 1 }", "stale", "a much longer text than the literal, written by the Before hook of the case"} {
+				tkObsGot = nil
+				expect("C20.unmarshal.data.hook", fam, false, []tkObsCase{{beforeX: setD(payload), afterX: func(int, tkObsSet) error { tkObsPhase = 2; return nil }, data: "stale", value: tkObs{S: payload + "@1"}}}, false,
+					fmt.Sprintf("Before writes Data %q over the literal \"stale\", Value is what the unmarshaler stores for the written Data", payload))
+				c.Check("")
+				if len(tkObsGot) != 1 || tkObsGot[0] != payload {
+					c.Fail("C20.unmarshal.data.hook", "", "Unmarshal helper of family %c: Before wrote Data %q over the literal \"stale\", the unmarshaler was handed %q", fam, payload, tkObsGot)
+				}
+				if payload != "right" {
+					expect("C20.unmarshal.data.hook", fam, false, []tkObsCase{{beforeX: setD(payload), data: "right", value: tkObs{S: "right@1"}}}, true,
+						fmt.Sprintf("Before spoils the right literal Data by writing %q, Value is what the literal would have given", payload))
+				}
+			}
+			tkObsGot = nil
+			expect("C20.unmarshal.data.hook", fam, false, []tkObsCase{{beforeX: setD("refuse it"), data: "fine", wantErr: true}}, false, "Before writes a Data the unmarshaler refuses, an error is expected")
+			expect("C20.unmarshal.data.hook", fam, false, []tkObsCase{{beforeX: setD("fine"), data: "refuse it", value: tkObs{S: "fine@1"}}}, false, "Before replaces a Data the unmarshaler would refuse by one it takes")
+		}
+		// ---- cases restricted to the other direction are ignored: neither their hooks nor the (un)marshaler run for them, whatever
+		// the hooks would have done (succeed, fail, panic), and the remaining cases keep their own index
+		for _, marshal := range []bool{true, false} {
+			other := test.OnlyUnmarshal
+			if !marshal {
+				other = test.OnlyMarshal
+			}
+			for hk, hookKind := range []string{"succeeds", "fails", "panics"} {
+				var calls []string
+				rec := func(tag string) tkObsHookX {
+					return func(i int, _ tkObsSet) error {
+						calls = append(calls, fmt.Sprintf("%s%d", tag, i))
+						tkObsPhase = 1
+						switch hk {
+						case 1:
+							return fmt.Errorf("hook of an ignored case failed")
+						case 2:
+							panic("hook of an ignored case panicked")
+						}
+						return nil
+					}
+				}
+				live := func(tag string) tkObsHookX {
+					return func(i int, _ tkObsSet) error {
+						calls = append(calls, fmt.Sprintf("%s%d", tag, i))
+						tkObsPhase = 1
+						return nil
+					}
+				}
+				var cs []tkObsCase
+				if marshal {
+					cs = []tkObsCase{{constraint: other, beforeX: rec("b"), afterX: rec("a"), data: "wrong", value: tkObs{X: 1}},
+						{beforeX: live("B"), afterX: live("A"), data: "2@1", value: tkObs{X: 2}},
+						{constraint: other, beforeX: rec("b"), afterX: rec("a"), data: "wrong", value: tkObs{X: 3}}}
+				} else {
+					cs = []tkObsCase{{constraint: other, beforeX: rec("b"), afterX: rec("a"), data: "ignored-0", value: tkObs{S: "wrong"}},
+						{beforeX: live("B"), afterX: live("A"), data: "two", value: tkObs{S: "two@1"}},
+						{constraint: other, beforeX: rec("b"), afterX: rec("a"), data: "ignored-2", value: tkObs{S: "wrong"}}}
+				}
+				tkObsGot, tkObsMarshalCalls = nil, 0
+				expect("C20.ignored", fam, marshal, cs, false, "cases 0 and 2 are for the other direction (their hook "+hookKind+", their data is wrong), case 1 is satisfied")
+				c.Check("")
+				wantCalls, ncalls := "[B1 A1]", tkObsMarshalCalls
+				if !marshal {
+					ncalls = len(tkObsGot)
+				}
+				if fmt.Sprint(calls) != wantCalls || ncalls != 1 {
+					c.Fail("C20.ignored", "", "family %c marshal=%v: cases 0 and 2 are restricted to the other direction (hook %s) yet were not ignored: hooks called %v (expected %s: Before and After of case 1 only), %d calls of the type's method (expected 1), data handed over %q",
+						fam, marshal, hookKind, calls, wantCalls, ncalls, tkObsGot)
+				}
+			}
+		}
 		// ---- the index handed to the hooks is the position of the case
 		for _, marshal := range []bool{true, false} {
 			var seen []int
@@ -210,6 +386,31 @@ func propC20Observed(c *Ctx) {
 			}
 		}
 	}
+	// ---- K2 (known finding): T is an interface type and a LATER case carries a nil Value. The interface check only
+	// looks at case 0; `any(c.Value).(encoding.TextMarshaler)` of the later case is evaluated outside the recovering
+	// wrapper, so the panic escapes the Marshal helper ("never lets a panic escape"). Reported under its own key.
+	for _, fam := range []byte{'T', 'B', 'J'} {
+		c.Check("")
+		n++
+		rec := &tkCount{}
+		escaped := func() (r any) {
+			defer func() { r = recover() }()
+			switch fam {
+			case 'T':
+				test.MarshalText[encoding.TextMarshaler](rec, []test.CaseText[encoding.TextMarshaler]{{Data: "1@0", Value: tkObs{X: 1}}, {Data: "b", Value: nil}})
+			case 'B':
+				test.MarshalBinary[encoding.BinaryMarshaler](rec, []test.CaseBinary[encoding.BinaryMarshaler]{{Data: []byte("1@0"), Value: tkObs{X: 1}}, {Data: []byte("b"), Value: nil}})
+			case 'J':
+				test.MarshalJSON[json.Marshaler](rec, []test.CaseJSON[json.Marshaler]{{Data: "1@0", Value: tkObs{X: 1}}, {Data: "b", Value: nil}})
+			}
+			return nil
+		}()
+		if escaped != nil {
+			c.Fail("C20.K2", "", "Marshal helper of family %c with T an interface type: case 1 has a nil Value and the panic escapes the helper: %v", fam, escaped)
+		} else if rec.n == 0 {
+			c.Fail("C20.K2.silent", "", "Marshal helper of family %c with T an interface type: case 1 has a nil Value (no marshaler) and nothing was reported", fam)
+		}
+	}
 	c.NT(n)
-	c.Note("observed-world oracle (direct only, not in the model): %d helper runs - marshaled value, unmarshaled bytes, hook order, After-written Value, hook index", n)
+	c.Note("observed-world oracle (direct only, not in the model): %d helper runs - marshaled value, unmarshaled bytes, hook order, After-written Value, hook index, hooks written by hooks, Data written by Before (Unmarshal), ignored cases left alone", n)
 }
